@@ -34,6 +34,7 @@ def check(cx):
         'R3.2 dispatch has exactly one handler call per Command variant',
         'R3.3 census of assignments to `authenticated`; each assigned value implies CAP ended, NICK+USER given, mask matched, required password verified (user password before server password)',
         'R3.4 wrong/missing password: 464, quit flag stored, no user created',
+        'R3.5 a registration attempt that ends without a user (nick taken meanwhile) does not leave the connection marked as registered (shared rule C02 R2.3)',
         'R3.6 CAP LS/REQ suspend, END resumes; PASS/NICK/USER re-enter authenticate only while unauthenticated',
         'R3.7 pre-registration handlers have no shared-state effect or cross-user send except the guarded add_user',
     ]
@@ -174,6 +175,11 @@ def check(cx):
         if not ok:
             r3.violation('authenticate|auth-value-unjustified', 'authenticated can become true without (CAP ended, NICK, USER, '
                          'mask match, required password verified): %s' % model_str(m), loc=cx.loc(e.node))
+
+    # ---------------------------------------------------------------- R3.5 registered flag <=> user exists
+    from .C02 import rule_auth_implies_registered
+    r35 = cx.rule('R3.5', 'authenticated => a user was registered for this connection', floor=2, kind='typestate')
+    rule_auth_implies_registered(cx, r35)
 
     # ---------------------------------------------------------------- R3.4 failure path, user creation
     r4 = cx.rule('R3.4', 'user creation only under the completion condition; failure closes', floor=3, kind='required-guard')
